@@ -3,6 +3,7 @@
 //!   cvh <engine> --tier quick|thorough --slice i/n --out <file> [--seed s]
 //!   cvh replay <file>
 
+mod crash;
 mod keys;
 mod model;
 mod ondisk;
@@ -10,6 +11,7 @@ mod ops;
 mod real;
 mod report;
 mod seq;
+mod shim;
 mod util;
 
 use report::WorkerResult;
@@ -86,6 +88,7 @@ fn main() {
             let a = parse_args(&argv[2..]);
             let res = match engine {
                 "seq" => seq::run(&a.tier, a.slice, a.seed),
+                "crash" => crash::run(&a.tier, a.slice, a.seed),
                 _ => {
                     eprintln!("unknown engine {engine}");
                     std::process::exit(2);
@@ -103,6 +106,7 @@ fn main() {
 pub fn replay(case: &Value) -> Vec<report::Violation> {
     match case["engine"].as_str().unwrap_or("") {
         "seq" => seq::replay(case),
+        "crash" => crash::replay(case),
         e => {
             eprintln!("cannot replay engine {e:?}");
             std::process::exit(2);
